@@ -45,6 +45,84 @@ fn gen_history(rng: &mut Rng, maxlen: usize, ncalls: usize, out: &mut Vec<String
     out.push(format!("{} {} {}", gen_cap(rng, maxlen), sc.tokens(), calls.join(";")));
 }
 
+/// a clip penalty for the envelope-edge scenario: anything in `[MIN_SCORE, 0]` is inside `AlignEnv`
+fn gen_clip_edge(rng: &mut Rng, b: i64) -> i32 {
+    match rng.below(12) {
+        0 | 1 | 2 => MIN_SCORE,
+        3 | 4 => 0,
+        5 | 6 => -(b as i32),
+        7 => MIN_SCORE + 1,
+        8 => MIN_SCORE / 2,
+        9 => -1,
+        10 => -(rng.range(0, b) as i32),
+        _ => rng.range(MIN_SCORE as i64, 0) as i32,
+    }
+}
+
+/// "envelope edge": the sequences are drawn first, then scores of magnitude up to the largest `B` that
+/// `AlignEnv` (`2 (m + n + 1) B < -MIN_SCORE`, `Thm/C01.lean` `custom_i32_correct`) allows for the longest call of
+/// the history — so the `i32` computation is sampled next to the proven bound, not only for |scores| <= 1024.
+fn gen_history_edge(rng: &mut Rng, maxlen: usize, ncalls: usize, out: &mut Vec<String>) {
+    let alpha = gen_alphabet(rng);
+    let k = alpha.len();
+    let mut calls = vec![];
+    let mut bmax = i64::MAX;
+    for _ in 0..ncalls {
+        let mode = if rng.chance(1, 2) { "custom" } else { MODES[rng.below(4)] };
+        let (x, y) = gen_pair(rng, &alpha, maxlen);
+        bmax = bmax.min(env_max_bound(x.len(), y.len()));
+        calls.push(format!("{},{},{}", mode, hex(&x), hex(&y)));
+    }
+    // exactly at the bound, one below, half of it, a random magnitude above the old fixed envelope
+    let b = match rng.below(6) {
+        0 | 1 | 2 => bmax,
+        3 => bmax - 1,
+        4 => bmax / 2,
+        _ => rng.range(1025.min(bmax), bmax),
+    };
+    let big = |rng: &mut Rng| -> i32 {
+        (match rng.below(4) {
+            0 | 1 => b,
+            2 => b - rng.range(0, 3.min(b)),
+            _ => rng.range(0, b),
+        }) as i32
+    };
+    let style = rng.below(4);
+    let mut tab = vec![0i32; k * k];
+    for i in 0..k {
+        for j in 0..k {
+            tab[i * k + j] = match style {
+                0 => if i == j { b as i32 } else { -(b as i32) },
+                1 => if i == j { big(rng) } else { -big(rng) },
+                // arbitrary signs (negative matches, positive mismatches)
+                _ => if rng.chance(1, 2) { big(rng) } else { -big(rng) },
+            };
+        }
+    }
+    let gap = |rng: &mut Rng| -> i32 {
+        match rng.below(5) {
+            0 | 1 => -(b as i32),
+            2 => 0,
+            3 => -(rng.range(0, 6) as i32),
+            _ => -(rng.range(0, b) as i32),
+        }
+    };
+    let (go, ge) = (gap(rng), gap(rng));
+    let clips = match rng.below(4) {
+        0 => {
+            let (a, c) = (gen_clip_edge(rng, b), gen_clip_edge(rng, b));
+            [a, a, c, c]
+        }
+        _ => [gen_clip_edge(rng, b), gen_clip_edge(rng, b), gen_clip_edge(rng, b), gen_clip_edge(rng, b)],
+    };
+    let mut idx = vec![usize::MAX; 256];
+    for (i, &c) in alpha.iter().enumerate() {
+        idx[c as usize] = i;
+    }
+    let sc = ScSpec { go, ge, clips, f: TabFn { alpha, idx, tab } };
+    out.push(format!("{} {} {}", gen_cap(rng, maxlen), sc.tokens(), calls.join(";")));
+}
+
 pub fn gen(tier: &str, rng: &mut Rng, out: &mut Vec<String>) {
     let thorough = tier == "thorough";
     let nhist = if thorough { 40000 } else { 6000 };
@@ -53,6 +131,13 @@ pub fn gen(tier: &str, rng: &mut Rng, out: &mut Vec<String>) {
         let maxlen = if thorough { [6, 8, 10, 12, 7, 9, 11, 18][i % 8] } else { [5, 7, 9, 10, 6, 8, 10, 16][i % 8] };
         let ncalls = 1 + rng.below(9);
         gen_history(rng, maxlen, ncalls, out);
+    }
+    // envelope edge (appended, so that the histories above are those of the earlier sessions)
+    let nedge = if thorough { 6000 } else { 1000 };
+    for i in 0..nedge {
+        let maxlen = [5, 7, 9, 10, 6, 8, 12, 16][i % 8];
+        let ncalls = 1 + rng.below(5);
+        gen_history_edge(rng, maxlen, ncalls, out);
     }
     if thorough {
         // exhaustive small scope: all x, y over {A,C} with |x|,|y| <= 4, 24 scoring schemes, the four modes
@@ -107,7 +192,7 @@ pub fn exec(toks: &[&str]) -> Result<String, String> {
     if toks.len() != 4 {
         return Err("arity".into());
     }
-    let sc = parse_sc(toks[1], toks[2])?;
+    let sc = parse_sc_env(toks[1], toks[2])?;
     let mut calls: Vec<(&str, Vec<u8>, Vec<u8>)> = vec![];
     for c in split_ne(toks[3], ';') {
         let p: Vec<&str> = c.split(',').collect();
@@ -117,6 +202,10 @@ pub fn exec(toks: &[&str]) -> Result<String, String> {
         let (x, y) = (unhex(p[1])?, unhex(p[2])?);
         if x.len() > 64 || y.len() > 64 || !sc.in_alphabet(&x) || !sc.in_alphabet(&y) {
             return Err("sequence outside the envelope".into());
+        }
+        // `AlignEnv` (Thm/C01.lean): 2 (m + n + 1) B < -MIN_SCORE
+        if !in_envelope(&sc, x.len(), y.len()) {
+            return Err("call outside the AlignEnv envelope".into());
         }
         calls.push((p[0], x, y));
     }
